@@ -149,11 +149,11 @@ def sites_for(draw, arities, kwpool, host, allow_next=True, max_sites=2, own=Non
 @st.composite
 def method_sets(draw, knames, ann_strategy, max_methods=5, max_pos=3, with_kw=True, with_opt=True,
                 hosts=("func", "func", "attr", "mc"), with_sites=True, prios=(0, 0, 0, 1, -1, 2),
-                allow_zero=True, kw_ann=None, catchall=True):
+                allow_zero=True, kw_ann=None, catchall=True, kwnames=("k0", "k1")):
     host = draw(st.sampled_from(list(hosts)))
     nm = draw(st.integers(1, max_methods))
     strict = draw(st.integers(0, 3)) == 0  # positional-only regime with per-method names
-    kwpool = ["k0", "k1"] if (with_kw and draw(st.integers(0, 2)) == 0) else []
+    kwpool = list(kwnames) if (with_kw and draw(st.integers(0, 2)) == 0) else []
     base_ar = draw(st.integers(1, max_pos))
     methods = []
     for i in range(nm):
